@@ -29,6 +29,24 @@ EXPLANATION = (
 ASSUMPTIONS = ["std::sync::mpsc and tokio mpsc channels are FIFO and lossless", "zstd decoding inverts zstd encoding"]
 
 
+def _last_true(fs):
+    """the facts say the chunk just received is the terminating one: query.first() == Some(1), spelled as the Option comparison or
+    as the pattern test `matches!(query.first(), Some(&1))` (Some edge + payload == 1 edge)"""
+    ts = [f["text"] if isinstance(f, dict) else f for f in fs]
+    if any("first(" in x and "Some{0: 1}" in x and x.endswith("is True") for x in ts):
+        return True
+    some = any("first(" in x and ".query" in x and x.endswith("is Some") for x in ts)
+    one = any("first(" in x and ".query" in x and "as Some).0" in x and x.endswith("in [1]") for x in ts)
+    return some and one
+
+
+def _any_last_test(b, s, facts):
+    for x in sorted(b.live_blocks()):
+        if _last_true(facts_at(b, s, facts, x)):
+            return True
+    return False
+
+
 def run(facts, R):
     # ---------------- one-terminal ----------------------------------------------------------------------
     pb = facts.body(VS + "produce")
@@ -244,6 +262,22 @@ def run(facts, R):
     errs = [(i, t) for i, t in nh.calls() if callee_matches(t["callee"], VS + "error_like")]
     R.floor("done-gate", len(errs), 3, "error rows in next handler")
 
+    # ---------------- release is final: cancel (and the last / failed `next`) release a stream by removing it from the
+    # SessionTable; that only ends the stream if the table is the one place a session lives in.  A session kept anywhere else
+    # (a cache slot in a handler, a second map) survives the release and keeps answering `next`
+    keepers = []
+    for p_, a_ in facts.adts.items():
+        if a_.get("kind") not in ("struct", "enum") or not a_.get("variants") or not p_.startswith("value_stream::"):
+            continue
+        for var_ in a_["variants"]:
+            for f_ in var_.get("fields", []):
+                ty_ = f_.get("ty") or ""
+                if "value_stream::Session>" in ty_ or ty_.endswith("value_stream::Session") or "value_stream::Session," in ty_ or "value_stream::Session)" in ty_:
+                    keepers.append((p_, f_.get("name"), ty_))
+    R.check([k[0] for k in keepers] == [VS + "SessionTable"], "done-gate", VS + "SessionTable", "sessions are stored only in the session table",
+            "a session is also kept in %s: removing it from the table (cancel, last chunk, producer error) no longer ends the stream - `next` after release finds it there"
+            % [(k[0], k[1]) for k in keepers if k[0] != VS + "SessionTable"], None, "only SessionTable.sessions holds Session values")
+
     # ---------------- last-flag-table ---------------------------------------------------------------------------------
     cr = facts.body(VS + "chunk_response")
     cv = Sym(cr).local(0)
@@ -265,6 +299,7 @@ def run(facts, R):
             a0, a1 = render_n(s.op(t["args"][0])), render_n(s.op(t["args"][1]))
             if "first(" in a0 and ".query" in a0 and a1 == "Option::Some{0: 1}":
                 ok = True
+        ok = ok or _any_last_test(b, s, facts)
         R.check(ok, "last-flag-table", path, "reader tests query.first() == Some(1)", "no `query.first().copied() == Some(1)` test found", b.span)
 
     # ---------------- done-gate, release side: cancel removes the session so that a later `next` finds none (error)
@@ -348,7 +383,9 @@ def run(facts, R):
                 continue
             g = texts(facts_at(ft, fs_, facts, w["bb"]))
             v = fs_.rvalue(w["rv"])
-            ok = any("first(" in x and "Some{0: 1}" in x and x.endswith("is True") for x in g) and const_val(v) == 1
+            from analysis.guards import path_facts as _pf2
+            rows_ = _pf2(ft, fs_, facts, w["bb"]) if getattr(ft, "changed", False) else [facts_at(ft, fs_, facts, w["bb"])]
+            ok = all(_last_true(r_) for r_ in rows_) and const_val(v) == 1
             # or unconditionally `flag |= last` with last = (query.first() == Some(1))
             if not ok and v[0] == "bin" and v[1] == "BitOr":
                 sides = [render_n(v[2]), render_n(v[3])]
@@ -357,13 +394,18 @@ def run(facts, R):
     pl = facts.body("value_stream::pull_loop_async::{closure#0}")
     pls = Sym(pl)
     oks = blocks_assigning_variant(pl, "std::result::Result", "Ok")
-    R.floor("eof-only-after-last", len(oks), 2, "Ok exits of pull_loop_async")
+    n_ok_rows = 0
     for i, j, st in oks:
-        g = texts(facts_at(pl, pls, facts, i))
-        last = any("first(" in x and "Some{0: 1}" in x and x.endswith("is True") for x in g)
-        dropped = any("is_err(" in x and "send" in x and x.endswith("is True") for x in g) or any("is_ok(" in x and "send" in x and x.endswith("is False") for x in g)
-        R.check(last or dropped, "eof-only-after-last", pl.path, "Ok only on last or receiver-dropped", "pull loop returns Ok under %s" % [x[-80:] for x in g], st.get("span"),
-                "last edge" if last else "consumer dropped its receiver")
+        from analysis.guards import path_facts as _pf
+        rows = _pf(pl, pls, facts, i) if getattr(pl, "changed", False) else [facts_at(pl, pls, facts, i)]
+        for fs_row in rows:
+            n_ok_rows += 1
+            g = texts(fs_row)
+            last = _last_true(fs_row)
+            dropped = any("is_err(" in x and "send" in x and x.endswith("is True") for x in g) or any("is_ok(" in x and "send" in x and x.endswith("is False") for x in g)
+            R.check(last or dropped, "eof-only-after-last", pl.path, "Ok only on last or receiver-dropped", "pull loop returns Ok under %s" % [x[-80:] for x in g], st.get("span"),
+                    "last edge" if last else "consumer dropped its receiver")
+    R.floor("eof-only-after-last", n_ok_rows, 2, "Ok exits of pull_loop_async")
 
     # ---------------- no-byte-discard --------------------------------------------------------------------------------------
     sink_fns = [b for b in facts.bodies.values() if "ChunkSink" in b.path]
